@@ -64,7 +64,7 @@ type c13Run struct {
 	idx  int64
 	ops  []aop
 	viol bool
-	nForged, nCorrective, nReplies, nRejects, nCycles, nRelayed, nAltStarts, nUnicastReq, nConfirms int
+	nForged, nCorrective, nReplies, nRejects, nCycles, nRelayed, nAltStarts, nUnicastReq, nConfirms, nStopOtherFamily int
 }
 
 func (r *c13Run) history() {
@@ -137,8 +137,13 @@ func (r *c13Run) history() {
 				}
 			case "stop":
 				a := tgt
-				if o.P == 3 {
+				switch {
+				case o.P == 3:
 					a.IP = netip.AddrFrom4([4]byte{192, 168, 0, byte(100 + o.T%len(c13Targets))})
+				case o.P == 2 && o.Delay%2 == 0:
+					// the caller walks the station's host entries and passes the IPv6 one, or none: the hunt is keyed by MAC
+					a.IP = []netip.Addr{netip.MustParseAddr("fe80::2:3ff:fe04:502"), netip.MustParseAddr("2001:db8::5"), {}}[int(o.Delay/2)%3]
+					r.nStopOtherFamily++
 				}
 				h.StopHunt(a)
 				if _, on := hunted[string(tgt.MAC)]; on {
@@ -506,6 +511,7 @@ func runC13(c *wk.Ctx) {
 		c.Obs("relayed_requests_mixed_hunt_state", int64(run.nRelayed))
 		c.Obs("router_requests_sent_unicast", int64(run.nUnicastReq))
 		c.Obs("dhcp_confirmations", int64(run.nConfirms))
+		c.Obs("stophunt_with_ipv6_or_no_address", int64(run.nStopOtherFamily))
 		c.Obs("starthunt_with_another_ip", int64(run.nAltStarts))
 		if !run.viol && run.nForged > 0 && run.nCorrective > 0 {
 			c.Class(fmt.Sprintf("forged~%d corrective~%d replies=%v rejects=%v", min(run.nForged/4, 6), min(run.nCorrective, 3), run.nReplies > 0, run.nRejects > 0))
